@@ -341,6 +341,7 @@ func (sc *StorageCar) Put(ctx context.Context, keyStr string, data []byte) error
 	}
 	n := uint64(w.Position())
 	if err := util.LdWrite(w, keyCid.Bytes(), data); err != nil {
+		sc.undoPartialSection(n)
 		return err
 	}
 	idx.InsertNoReplace(keyCid, n)
@@ -351,6 +352,28 @@ func (sc *StorageCar) Put(ctx context.Context, keyStr string, data []byte) error
 // Has returns true if the CAR contains a block identified by the given CID
 // provided in string form. The keyStr value must be a valid CID binary string
 // (not a multibase string representation), i.e. generated with CID#KeyString().
+// undoPartialSection is called when writing a section failed part-way. With random access to the
+// output the data writer is repositioned at payload offset n and, where the output supports it,
+// the debris is truncated away, so that the payload stays well-formed and a later Put does not land
+// after it. A plain stream cannot be repaired: the store is closed so that nothing is appended to
+// the broken section. Best effort: the write error that led here is what gets reported.
+func (sc *StorageCar) undoPartialSection(n uint64) {
+	if sc.dataWriter == nil {
+		sc.closed = true
+		return
+	}
+	_, _ = sc.dataWriter.Seek(int64(n), io.SeekStart)
+	offset := int64(sc.header.DataOffset)
+	if sc.opts.WriteAsCarV1 {
+		offset = 0
+	}
+	if ptw, ok := sc.writer.(*positionTrackingWriter); ok {
+		if t, ok := ptw.w.(interface{ Truncate(size int64) error }); ok {
+			_ = t.Truncate(offset + int64(n))
+		}
+	}
+}
+
 func (sc *StorageCar) Has(ctx context.Context, keyStr string) (bool, error) {
 	keyCid, err := cid.Cast([]byte(keyStr))
 	if err != nil {
